@@ -663,3 +663,189 @@ def observe_raw(s):
     """{(phase, ID): molar flow} of the raw sparse rows (zero when not stored)."""
     IDs = s.chemicals.IDs
     return {(ph, ID): sv.dct.get(k, 0.) for ph, sv in W.rows_of(s) for k, ID in enumerate(IDs)}
+
+
+# --------------------------------------------------------------------------- group 5: histories (the point of the property)
+
+OPS_SINGLE = ['wmol', 'wmass', 'wvol', 'T', 'P', 'phase', 'phases', 'link', 'unlink', 'copy_like', 'reset']
+OPS_MULTI = ['wmol', 'wmass', 'wvol', 'wsub', 'T', 'P', 'phase', 'phases', 'expand', 'link', 'unlink', 'copy_like', 'reset']
+OPS_EXTRA = ['Tback', 'copy_likeB', 'copy_like_multi', 'F_mass', 'scale_vol']      # thorough only
+
+
+def hist_configs(tier):
+    out = []
+
+    def add(start, seq, touch):
+        out.append({'name': f'start={start};touch={touch};ops=' + '>'.join(seq), 'start': start, 'ops': list(seq), 'touch': touch})
+    for start, ops in (('l', OPS_SINGLE), ('gl', OPS_MULTI)):
+        if tier == 'quick':
+            for n in (1, 2):
+                for seq in itertools.product(ops, repeat=n):
+                    add(start, seq, 'all')
+            for seq in itertools.product(ops, repeat=2):
+                if seq[0] in ('link', 'phases', 'copy_like', 'reset', 'expand', 'unlink'):
+                    add(start, seq, 'end')
+            # selected longer histories: cache filled, structure changed, written through a view, conditions changed
+            for seq in [('wvol', 'T', 'wvol'), ('link', 'wmass', 'unlink'), ('link', 'unlink', 'wvol'), ('phases', 'wvol', 'phase'),
+                        ('reset', 'wmass', 'reset'), ('T', 'P', 'wvol'), ('copy_like', 'T', 'wvol'), ('link', 'T', 'wvol'),
+                        ('phases', 'link', 'wmass'), ('reset', 'link', 'wvol'), ('unlink', 'reset', 'wvol')]:
+                add(start, seq, 'all')
+        else:
+            for n in (1, 2, 3):
+                for seq in itertools.product(ops, repeat=n):
+                    add(start, seq, 'all')
+            for n in (1, 2):
+                for seq in itertools.product(ops + OPS_EXTRA, repeat=n):
+                    add(start, seq, 'end')
+                    if any(o in OPS_EXTRA for o in seq):
+                        add(start, seq, 'all')
+            for seq in [('wvol', 'T', 'wvol', 'P', 'wmass'), ('link', 'wmass', 'T', 'unlink', 'wvol'), ('phases', 'wvol', 'phase', 'T', 'wvol'),
+                        ('reset', 'wmass', 'link', 'reset', 'wvol'), ('copy_like', 'T', 'wvol', 'reset', 'wmass'),
+                        ('link', 'phases', 'wvol', 'unlink', 'P'), ('T', 'Tback', 'wvol', 'T', 'Tback'), ('wvol', 'reset', 'phases', 'wvol'),
+                        ('link', 'reset', 'unlink', 'wvol'), ('phases', 'reset', 'wvol', 'T')]:
+                add(start, seq, 'all')
+    if tier == 'thorough':
+        for seq in itertools.product(OPS_SINGLE, repeat=2):
+            out.append({'name': 'start=l3;touch=all;ops=' + '>'.join(seq), 'start': 'l3', 'ops': list(seq), 'touch': 'all'})
+    return out
+
+
+FUNCS_HIST = ['thermosteam._stream:Stream.T', 'thermosteam._stream:Stream.P', 'thermosteam._stream:Stream.phase', 'thermosteam._stream:Stream.phases',
+              'thermosteam._multi_stream:MultiStream.phases', 'thermosteam._multi_stream:MultiStream.phase',
+              'thermosteam._stream:Stream.link_with', 'thermosteam._stream:Stream.unlink', 'thermosteam._stream:Stream.copy_like',
+              'thermosteam._multi_stream:MultiStream.copy_like', 'thermosteam._stream:Stream._reset_thermo',
+              'thermosteam.indexer:ChemicalIndexer.reset_chemicals', 'thermosteam.indexer:MaterialIndexer.reset_chemicals',
+              'thermosteam.indexer:MaterialIndexer._expand_phases', 'thermosteam.indexer:ChemicalIndexer.to_material_indexer',
+              'thermosteam.indexer:MaterialIndexer.to_chemical_indexer', 'thermosteam.indexer:MaterialIndexer.to_material_indexer',
+              'thermosteam._multi_stream:MultiStream.__getitem__'] + FUNCS_VIEWS + FUNCS_WRITE[-6:]
+
+
+@group('C11/histories', configs=hist_configs, functions=FUNCS_HIST, assumptions=ASSUME)
+def histories(w, cfg):
+    """
+    Any interleaving of view writes with changes of T, P, phase, phases, links, copies and package resets, followed by a
+    full observation.  touch=all observes after every step as well (every cache is filled before the next change).
+    """
+    W.reset_caches()
+    ops = cfg['ops']
+    pkgA, pkgB = ('A3', 'B3') if cfg['start'] == 'l3' else ('A', 'B')
+    kind = 'l' if cfg['start'] == 'l3' else cfg['start']
+    thA = package(w, pkgA); thB = package(w, pkgB)
+    s, _ = mk(w, 's', kind, pkgA, 'all-pos' if kind == 'l' else 'diag', th=thA)
+    Ts = [s.T]; Ps = [s.P]
+    T0 = s.T
+    live = [('s', s)]
+    others = {}
+
+    def other(name):
+        if name not in others:
+            if name == 'o':        # link target: same class as the start
+                o, _ = mk(w, 'o', kind, pkgA, 'first-pos', th=thA)
+            elif name == 'og':     # copy source: a gas stream
+                o, _ = mk(w, 'og', 'g', pkgA, 'first-pos', th=thA)
+            elif name == 'ogB':    # copy source with another package (other chemical order)
+                o, _ = mk(w, 'ogB', 'g', pkgB, 'first-pos', th=thB)
+            elif name == 'ols':    # copy source with phases the stream may not have
+                o, _ = mk(w, 'ols', 'ls', pkgA, 'diag', th=thA)
+            elif name == 'os':     # a solid stream (mixing it in makes a MultiStream grow a phase)
+                o, _ = mk(w, 'os', 's', pkgA, 'first-pos', th=thA)
+            others[name] = o
+            Ts.append(o.T); Ps.append(o.P)
+        return others[name]
+    for op in ops:   # all leaves of a path are created up-front, deterministically
+        if op == 'link': other('o')
+        elif op == 'copy_like': other('og')
+        elif op == 'copy_likeB': other('ogB')
+        elif op == 'copy_like_multi': other('ols')
+        elif op == 'expand': other('os')
+    distinct(w, Ts); distinct(w, Ps)
+    touch_all = cfg['touch'] == 'all'
+    if touch_all:
+        observe(w, s, 'step0', units=())
+        for name, o in others.items():
+            o.imass, o.ivol, o.vol.sum(), o.F_vol            # their caches are filled, too
+    canary_done = False
+    for n, op in enumerate(ops, 1):
+        tag = f'step{n}({op})'
+        multi = isinstance(s, tmo.MultiStream)
+        ph = ('l' if 'l' in s.phases else s.phases[0])
+        key = (ph, 'Water') if multi else 'Water'
+        if op in ('wmol', 'wmass', 'wvol'):
+            x = w.real(f'x{n}', lo=0, lo_strict=True)
+            name = op[1:]
+            getattr(s, 'i' + name)[key] = x
+            kW = s.chemicals.IDs.index('Water')
+            raw = observe_raw(s)[ph, 'Water']
+            per = {'mol': 1., 'mass': float(s.chemicals.MW[kW]), 'vol': 1000. * V_expected(w, s, 'Water', ph, s.T, s.P)}[name]
+            w.ensure(f'{tag}: write through the {name} view, read back the written value', eq_or_fail(w, attempt(lambda: getattr(s, 'i' + name)[key]), x))
+            w.ensure(f'{tag}: molar data = value / (1, MW, 1000 V(phase,T,P) now)', w.eq(raw * per, x))
+            if not canary_done:
+                w.canary('canary: view write stores the value as molar flow + 1', w.eq(raw, x + 1)); canary_done = True
+        elif op == 'wsub':
+            x = w.real(f'x{n}', lo=0, lo_strict=True)
+            if multi:
+                s[ph].ivol['Water'] = x
+                w.ensure(f'{tag}: volume written through the phase sub-stream shows in the multi-phase view', eq_or_fail(w, attempt(lambda: s.ivol[key]), x))
+            else:
+                s.vol[s.chemicals.IDs.index('Water')] = x
+                w.ensure(f'{tag}: volume written through vol[k] reads back', eq_or_fail(w, attempt(lambda: s.ivol['Water']), x))
+        elif op == 'F_mass':
+            x = w.real(f'x{n}', lo=0, lo_strict=True)
+            s.F_mass = x
+            w.ensure(f'{tag}: F_mass reads back', eq_or_fail(w, attempt(lambda: s.F_mass), x))
+        elif op == 'scale_vol':
+            x = w.real(f'x{n}', lo=0, lo_strict=True)
+            s.set_total_flow(x, 'L/min')
+            w.ensure(f'{tag}: total volumetric flow reads back', eq_or_fail(w, attempt(lambda: s.get_total_flow('L/min')), x))
+        elif op in ('T', 'P'):
+            v = w.real(f'{op}{n}', lo=0, lo_strict=True)
+            lst = Ts if op == 'T' else Ps
+            lst.append(v); distinct_from(w, v, lst[:-1])
+            setattr(s, op, v)
+        elif op == 'Tback':
+            s.T = T0
+        elif op == 'phase':
+            if multi: s.phase = 'l'
+            else: s.phase = 'g' if s.phase != 'g' else 'l'
+        elif op == 'phases':
+            if not multi: s.phases = ('g', 'l')
+            elif 's' not in s.phases: s.phases = tuple(s.phases) + ('s',)
+            else: s.phases = ('g', 'l', 's', 'L')
+        elif op == 'expand':
+            if multi:
+                s.mix_from([s, other('os')], energy_balance=False)
+            else:
+                s.copy_like(other('os'))
+        elif op == 'link':
+            o = other('o')
+            r = attempt(lambda: s.link_with(o))
+            same_class = isinstance(o._imol, type(s._imol))
+            if same_class:
+                w.ensure(f'{tag}: link succeeds for streams of the same class', not isinstance(r, Raised), got=repr(r))
+                if ('o', o) not in live: live.append(('o', o))
+            else:
+                w.ensure(f'{tag}: link of different classes is rejected', isinstance(r, Raised) and isinstance(r.e, RuntimeError), got=repr(r))
+        elif op == 'unlink':
+            s.unlink()
+        elif op == 'copy_like':
+            s.copy_like(other('og'))
+        elif op == 'copy_likeB':
+            s.copy_like(other('ogB'))
+        elif op == 'copy_like_multi':
+            s.copy_like(other('ols'))
+        elif op == 'reset':
+            s._reset_thermo(thB if s._thermo is thA else thA)
+        else:
+            raise RuntimeError(op)
+        if touch_all and n < len(ops):
+            for name, x_ in live:
+                observe(w, x_, f'{tag}:{name}', units=())
+    for name, x_ in live:
+        observe(w, x_, f'end:{name}', units=('mol/s', 'lb/hr', 'L/min') if name == 's' else ())
+    if not canary_done:
+        w.canary('canary: F_mass = F_mol + 1', w.eq(s.F_mass, s.F_mol + 1))
+
+
+def distinct_from(w, v, xs):
+    for a in xs:
+        w.assume(w.Or(w.ge(a - v, 1e-6), w.ge(v - a, 1e-6)))
